@@ -339,12 +339,49 @@ def placementOk (pred obs : String) : Bool :=
     is the record of the source operator.  One reading is fixed here: a source operator that carries no option
     table at all (type NONE) equals an output operator whose option table has no non-default field, whatever its
     type (the writer always emits the operator's own, empty, table). -/
-def unchangedOnCpu (source output : List String) : Bool :=
+def unchangedCore (source output : List String) (inputsOk : String → String → Bool) : Bool :=
   match source, output with
   | [c, cc, ot, f, co, i, o], [c', cc', ot', f', co', i', o'] =>
-    c == c' && cc == cc' && f == f' && co == co' && i == i' && o == o' &&
+    c == c' && cc == cc' && f == f' && co == co' && inputsOk i i' && o == o' &&
       (ot == ot' || (ot == "0" && f == "-"))
   | _, _ => false
+
+/-- One operator of the SOURCE graph lying between the tensor the output operator reads and the tensor the source
+    operator read: builtin code, "input and output have the same shape", "… the same data type and quantisation". -/
+structure Link where
+  code : Nat
+  sameShape : Bool
+  sameTypeQuant : Bool
+deriving Repr, DecidableEq
+
+/-- RESHAPE 22, SQUEEZE 43, EXPAND_DIMS 70: the same bytes under another shape -/
+def reshapeLike : List Nat := [22, 43, 70]
+/-- RESIZE_BILINEAR 23, RESIZE_NEAREST_NEIGHBOR 97: the identity when the size does not change
+    (`fixup_resize`: "Bypass the resize op which is essentially a NOP") -/
+def resizeOps : List Nat := [23, 97]
+
+/-- the link copies its input: a reshape-like operator between equally typed/quantised tensors, or a resize
+    that changes neither size nor type/quantisation -/
+def Link.isIdentity (l : Link) : Bool :=
+  l.sameTypeQuant && (reshapeLike.contains l.code || (resizeOps.contains l.code && l.sameShape))
+
+/-- A CPU operator may read tensor `outName` instead of `srcName` only when, in the source graph, `srcName` is
+    produced from `outName` by a non-empty chain of identity links and both tensors have the same shape, data type
+    and quantisation (so the operator sees byte-identical data under an identical description). -/
+structure Alias where
+  srcName : String
+  outName : String
+  sameSignature : Bool
+  chain : List Link
+
+def Alias.ok (a : Alias) : Bool := a.sameSignature && !a.chain.isEmpty && a.chain.all Link.isIdentity
+
+def unchangedOnCpu (source output : List String) (aliases : List Alias := []) : Bool :=
+  unchangedCore source output fun i i' =>
+    let a := i.splitOn ","
+    let b := i'.splitOn ","
+    a.length == b.length && (a.zip b).all fun (x, y) =>
+      x == y || aliases.any fun al => al.srcName == x && al.outName == y && al.ok
 
 -- ------------------------------------------------------------------------------------------------
 -- report vs live objects
